@@ -61,6 +61,28 @@ func H_Cache() {
 	for i := range keys {
 		keys[i] = "k" + strconv.Itoa(i)
 	}
+	// eviction runs shrink the per-key map (default 200 blocks) through the verif hook; the
+	// known-finding region is "the key's map may have been over capacity": more blocks than its
+	// capacity had an entry for the key (a committed write or removal, or a lookup that may have
+	// memoised an ancestor's entry)
+	percap := vp.Param("percap", 0)
+	setPerKeyCap(percap)
+	entries := make([][]bool, nk) // per key: blocks that may have an entry
+	for k := range entries {
+		entries[k] = make([]bool, n)
+	}
+	over := func(k int) bool {
+		if percap == 0 {
+			return false
+		}
+		c := 0
+		for _, e := range entries[k] {
+			if e {
+				c++
+			}
+		}
+		return c > percap
+	}
 	sc := statecache.NewStateCache()
 	bs := make([]*block, n)
 	for i := 0; i < n; i++ {
@@ -121,6 +143,13 @@ func H_Cache() {
 			return false
 		}
 		ow, ov := oracle(bs, b, k)
+		entries[k][b] = true
+		evicted := over(k)
+		if evicted {
+			vp.Cover("C06.over-capacity")
+		}
+		vp.Known("C06.hit-only-if-written-on-chain", "per-key-map-over-capacity", evicted)
+		vp.Known("C06.hit-value-is-nearest-ancestor-write", "per-key-map-over-capacity", evicted)
 		if hit {
 			mv, ok := got.(*MV)
 			vp.Assert("C06.hit-has-value", ok && mv != nil)
@@ -150,6 +179,11 @@ func H_Cache() {
 				return
 			}
 			bs[j].done = true
+			for k := 0; k < nk; k++ {
+				if bs[j].w[k] != wNone {
+					entries[k][j] = true
+				}
+			}
 		}
 		for l := 0; l < m; l++ {
 			if !lookup() {
@@ -168,6 +202,11 @@ func H_Cache() {
 					return
 				}
 				bs[next].done = true
+				for k := 0; k < nk; k++ {
+					if bs[next].w[k] != wNone {
+						entries[k][next] = true
+					}
+				}
 				next++
 			} else {
 				if !lookup() {
